@@ -43,6 +43,15 @@ pub fn vslice<'a>(d: &'a [u8], a: usize, b: usize) -> (r: &'a [u8])
     requires a <= b <= d@.len(),
     ensures r@ == d@.subrange(a as int, b as int),
 { unimplemented!() }
+// <[u8]>::split_at(mid): panics unless mid <= len (std contract) -- the panic is the stub's precondition
+#[verifier::external_body]
+pub fn vsplit_at<'a>(d: &'a [u8], mid: usize) -> (r: (&'a [u8], &'a [u8]))
+    requires mid <= d@.len(),
+    ensures r.0@ == d@.subrange(0, mid as int), r.1@ == d@.subrange(mid as int, d@.len() as int),
+{ unimplemented!() }
+// <[u8]>::is_empty
+#[verifier::external_body]
+pub fn vis_empty(d: &[u8]) -> (r: bool) ensures r == (d@.len() == 0), { unimplemented!() }
 #[verifier::external_body]
 pub fn vextend(v: &mut Vec<u8>, s: &Vec<u8>)
     ensures final(v)@ == old(v)@ + s@,
